@@ -805,8 +805,14 @@ fn parse_simple_expression(
                 // immediately after the name, to avoid ambiguity.
                 //
                 // TODO: arguably this should be done in the lexer.
+                //
+                // A keyword is never a struct name. `parse_symbol`
+                // may leave a misplaced keyword unconsumed, so trying
+                // to parse `else{` as a struct literal would recurse
+                // on the same token forever.
                 if token.text == "{"
                     && prev_token.position.end_offset == token.position.start_offset
+                    && !KEYWORDS.contains(&prev_token.text)
                 {
                     return parse_struct_literal(tokens, id_gen, diagnostics);
                 }
